@@ -156,6 +156,59 @@ Fixpoint find_path (i : nat) (paths : list (list event)) (its : list item) (whol
   | p :: r => if path_matches p its whole then Some i else find_path (S i) r its whole
   end.
 
+(** matching against a path = matching against its expected trace [trace_of_skel_path] (the normal form) *)
+Lemma event_eqb_eq a b : event_eqb a b = true -> a = b.
+Proof. unfold event_eqb. destruct (event_eq_dec a b); [auto|discriminate]. Qed.
+
+Lemma event_eqb_refl a : event_eqb a a = true.
+Proof. unfold event_eqb. destruct (event_eq_dec a a); [reflexivity|contradiction]. Qed.
+
+Lemma collapse_some_stut e r : stutterable e = true -> collapse (Some e) r = collapse None (drop_dups e r).
+Proof.
+  intro S. induction r as [|e2 r' IH]; [reflexivity|]. simpl.
+  destruct (event_eqb e e2) eqn:E.
+  - apply event_eqb_eq in E. subst e2. rewrite S. simpl. exact IH.
+  - rewrite andb_false_r. reflexivity.
+Qed.
+
+Lemma collapse_some_nostut e r : stutterable e = false -> collapse (Some e) r = collapse None r.
+Proof.
+  intro S. destruct r as [|e2 r']; [reflexivity|]. simpl.
+  destruct (event_eqb e e2) eqn:E.
+  - apply event_eqb_eq in E. subst e2. rewrite S. reflexivity.
+  - rewrite andb_false_r. reflexivity.
+Qed.
+
+Lemma drop_dups_head e r e2 t : drop_dups e r = e2 :: t -> event_eqb e e2 = false.
+Proof.
+  induction r as [|x r' IH]; simpl; [discriminate|].
+  destruct (event_eqb e x) eqn:E; [exact IH|]. intro H. inversion H; subst. exact E.
+Qed.
+
+Lemma drop_dups_collapse e r :
+  drop_dups e (collapse None (drop_dups e r)) = collapse None (drop_dups e r).
+Proof.
+  destruct (drop_dups e r) as [|e2 t] eqn:D; [reflexivity|].
+  simpl. rewrite (drop_dups_head _ _ _ _ D). reflexivity.
+Qed.
+
+Lemma lmatch_normal_form whole its : forall env last path,
+  lmatch whole env last path its = lmatch whole env last (trace_of_skel_path path) its.
+Proof.
+  unfold trace_of_skel_path. induction its as [|it r IH]; intros env last path; simpl.
+  - destruct path; reflexivity.
+  - destruct (same_item last it); [apply IH|].
+    destruct path as [|e p']; [reflexivity|]. simpl.
+    destruct (lmatch_ev env e it) as [env'|]; [|reflexivity].
+    destruct (stutterable e) eqn:S.
+    + rewrite (collapse_some_stut e p' S). rewrite drop_dups_collapse. apply IH.
+    + rewrite (collapse_some_nostut e p' S). apply IH.
+Qed.
+
+Corollary path_matches_trace path its whole :
+  path_matches path its whole = path_matches (trace_of_skel_path path) its whole.
+Proof. apply lmatch_normal_form. Qed.
+
 (* ------------------------------------------------------------------ executable interleaving semantics *)
 
 Section Replay.
@@ -547,6 +600,90 @@ Theorem replay_sound c0 its s' err :
   replay its (rpst0 c0) = (s', err) -> exec wfun sk false c0 (rev (rs_lab s')) (rs_cfg s').
 Proof. intro E. eapply (replay_ok c0 its (rpst0 c0)); [|eassumption]. apply exec_nil. Qed.
 
+(** the invocations and responses of the model execution are EXACTLY the logged ones: same threads, same
+    methods, same order (so the history the linearizability theorem speaks about is the logged history) *)
+Definition item_io (it : item) : list (tid * option nat) :=
+  match it with IBegin t m => [(t, Some m)] | IEnd t => [(t, None)] | _ => [] end.
+
+Definition label_io (l : label val arg) : list (tid * option nat) :=
+  match l with LBegin t o => [(t, Some (o_meth o))] | LEnd t _ _ => [(t, None)] | LEv _ _ => [] end.
+
+Definition labs_io (acc : list (label val arg)) : list (tid * option nat) := flat_map label_io (rev acc).
+
+Lemma labs_io_cons l acc : labs_io (l :: acc) = labs_io acc ++ label_io l.
+Proof. unfold labs_io. simpl. rewrite flat_map_app. simpl. rewrite app_nil_r. reflexivity. Qed.
+
+Lemma exec_dups_io fuel e t : forall c acc c' acc',
+  exec_dups fuel e t c acc = (c', acc') -> labs_io acc' = labs_io acc.
+Proof.
+  induction fuel as [|f IH]; simpl; intros c acc c' acc' E.
+  - inversion E; reflexivity.
+  - destruct (c_thr c t) as [r|]; [|inversion E; reflexivity].
+    destruct (r_todo r) as [|e' rest]; [inversion E; reflexivity|].
+    destruct (event_eqb e e'); [|inversion E; reflexivity].
+    destruct (exec_ev c t) as [[e'' c1]|]; [|inversion E; reflexivity].
+    rewrite (IH _ _ _ _ E). rewrite labs_io_cons. simpl. apply app_nil_r.
+Qed.
+
+Lemma replay_io its : forall s s',
+  replay its s = (s', None) -> labs_io (rs_lab s') = labs_io (rs_lab s) ++ flat_map item_io its.
+Proof.
+  induction its as [|it rest IH]; intros s s' E; simpl in E.
+  - inversion E; subst. rewrite app_nil_r. reflexivity.
+  - assert (Hlow : forall t : tid, item_io it = [] ->
+      (if same_item (last_get t (rs_last s)) it then replay rest s
+       else match c_thr (rs_cfg s) t with
+            | None => (s, Some (RIdle t))
+            | Some r =>
+                match r_todo r with
+                | [] => (s, Some (RIdle t))
+                | e :: _ =>
+                    match gmatch (rs_cfg s) r (rs_rho s) e it with
+                    | None => (s, Some (RMismatch t e))
+                    | Some rho' =>
+                        match exec_ev (rs_cfg s) t with
+                        | None => (s, Some (RDisabled t e))
+                        | Some (e', c1) =>
+                            if stutterable e then
+                              let '(c2, lab2) := exec_dups (length (r_todo r)) e t c1 (LEv t e' :: rs_lab s) in
+                              replay rest {| rs_cfg := c2; rs_lab := lab2; rs_rho := rho';
+                                             rs_last := last_set t (Some it) (rs_last s) |}
+                            else
+                              replay rest {| rs_cfg := c1; rs_lab := LEv t e' :: rs_lab s; rs_rho := rho';
+                                             rs_last := last_set t None (rs_last s) |}
+                        end
+                    end
+                end
+            end) = (s', None) ->
+      labs_io (rs_lab s') = labs_io (rs_lab s) ++ flat_map item_io (it :: rest)).
+    { intros t Hio E'. simpl. rewrite Hio. simpl.
+      destruct (same_item (last_get t (rs_last s)) it); [apply IH; assumption|].
+      destruct (c_thr (rs_cfg s) t) as [r|]; [|discriminate].
+      destruct (r_todo r) as [|e tl]; [discriminate|].
+      destruct (gmatch (rs_cfg s) r (rs_rho s) e it) as [rho'|]; [|discriminate].
+      destruct (exec_ev (rs_cfg s) t) as [[e' c1]|]; [|discriminate].
+      destruct (stutterable e).
+      - destruct (exec_dups (length (e :: tl)) e t c1 (LEv t e' :: rs_lab s)) as [c2 lab2] eqn:D.
+        rewrite (IH _ _ E'). simpl. rewrite (exec_dups_io _ _ _ _ _ _ _ D). rewrite labs_io_cons. simpl.
+        rewrite app_nil_r. reflexivity.
+      - rewrite (IH _ _ E'). simpl. rewrite labs_io_cons. simpl. rewrite app_nil_r. reflexivity. }
+    destruct it as [t meth|t|t e|t v o|t v o|t o w|t o1 o2|t]; simpl in E;
+      try (apply (Hlow _ eq_refl E)).
+    + destruct (op_items t rest) as [mine whole].
+      destruct (find_path 0 (nth meth (sk_meths sk) []) mine whole) as [i|]; [|discriminate].
+      destruct (exec_begin (rs_cfg s) t (mk_op meth i a0)) as [c'|]; [|discriminate].
+      rewrite (IH _ _ E). simpl. rewrite labs_io_cons. simpl. rewrite <- app_assoc. reflexivity.
+    + destruct (exec_end (rs_cfg s) t) as [[l c']|] eqn:X; [|discriminate].
+      rewrite (IH _ _ E). simpl. rewrite labs_io_cons.
+      unfold exec_end in X. destruct (c_thr (rs_cfg s) t) as [r|]; [|discriminate].
+      destruct (r_todo r); [|discriminate]. inversion X; subst. simpl. rewrite <- app_assoc. reflexivity.
+    + discriminate.
+Qed.
+
+Theorem replay_history c0 its s' :
+  replay its (rpst0 c0) = (s', None) -> flat_map label_io (rev (rs_lab s')) = flat_map item_io its.
+Proof. intro E. apply replay_io in E. exact E. Qed.
+
 (** ... hence, for a skeleton that passes the check, everything the theorems promise holds of the run that was
     replayed: the configuration reached is no crash and no race, and the run has a linearization *)
 Corollary replay_run_safe K c0 its s' err :
@@ -578,7 +715,7 @@ End Replay.
 
 Arguments exec_ev {val arg}. Arguments exec_begin {val arg}. Arguments exec_end {val arg}.
 Arguments replay {val arg}. Arguments rpst0 {val arg}. Arguments rs_cfg {val arg}. Arguments rs_lab {val arg}.
-Arguments rs_rho {val arg}. Arguments model_stuck {val arg}.
+Arguments rs_rho {val arg}. Arguments model_stuck {val arg}. Arguments label_io {val arg}.
 
 (* ------------------------------------------------------------------ happens-before race detection on the items *)
 
